@@ -72,8 +72,8 @@ func (r *report) add(d *HarnessDef, res *sx.Result, verbose bool) {
 		ac[a.Status]++
 		seenLabel[a.Label] = true
 	}
-	fmt.Printf("  %-44s paths=%d %v asserts=%v queries=%d solver=%.1fs wall=%.1fs\n", d.Func, len(res.Paths), counts, ac,
-		res.Solver.Queries, (res.Solver.Time + res.Solver.FallbackDur).Seconds(), res.Wall.Seconds())
+	fmt.Printf("  %-44s paths=%d %v asserts=%v queries=%d solver=%.1fs models=%d/%.1fs wall=%.1fs\n", d.Func, len(res.Paths), counts, ac,
+		res.Solver.Queries, (res.Solver.Time + res.Solver.FallbackDur).Seconds(), res.Solver.ModelCalls, res.Solver.ModelTime.Seconds(), res.Wall.Seconds())
 	for _, e := range res.Errors {
 		run.problems = append(run.problems, e)
 	}
@@ -107,7 +107,7 @@ func (r *report) add(d *HarnessDef, res *sx.Result, verbose bool) {
 	for _, a := range res.Asserts {
 		if a.Status == "violated" {
 			run.candidates = append(run.candidates, &candidate{Harness: d.Func, Label: a.Label, Kind: "assert", Pos: a.Pos,
-				Vals: a.Model, RelDir: d.RelDir})
+				Vals: a.Model, Tags: a.Tags, RelDir: d.RelDir})
 		}
 	}
 	seenPanic := map[string]bool{}
@@ -324,7 +324,7 @@ func (r *report) finish(wall time.Duration, eng *sx.Engine, writeEvidence bool) 
 			p := filepath.Join(verifDir, "replays", r.prop, fmt.Sprintf("%s-%s-%d.json", c.Harness, sanitize(c.Label), violations))
 			writeJSON(p, c)
 			replayPaths = append(replayPaths, p)
-			fmt.Printf("  counterexample (%s): harness=%s assertion=%s %s %s\n    inputs=%v\n", c.Confirmed, c.Harness, c.Label, c.Msg, c.Pos, c.Vals)
+			fmt.Printf("  counterexample (%s): harness=%s assertion=%s %s %s\n    inputs=%s\n", c.Confirmed, c.Harness, c.Label, c.Msg, c.Pos, showInputs(c.Tags, c.Vals))
 		}
 		if len(run.problems) > 0 {
 			inconclusive = true
@@ -529,4 +529,41 @@ func sameReaches(native, predicted []string) bool {
 		return false
 	}
 	return true
+}
+
+// showInputs renders a counterexample compactly: tag=value for non-zero values
+// (runs of equal tags are grouped), or the raw vector if tags are unavailable.
+func showInputs(tags, vals []string) string {
+	if len(tags) != len(vals) || len(tags) == 0 {
+		return fmt.Sprint(vals)
+	}
+	base := func(t string) string {
+		if i := strings.IndexByte(t, '['); i >= 0 {
+			return t[:i]
+		}
+		return t
+	}
+	var sb strings.Builder
+	for i := 0; i < len(vals); {
+		j := i
+		for j < len(vals) && base(tags[j]) == base(tags[i]) {
+			j++
+		}
+		allZero := true
+		for k := i; k < j; k++ {
+			if vals[k] != "0" {
+				allZero = false
+			}
+		}
+		switch {
+		case j-i == 1:
+			fmt.Fprintf(&sb, "%s=%s ", base(tags[i]), vals[i])
+		case allZero:
+			fmt.Fprintf(&sb, "%s[x%d]=0 ", base(tags[i]), j-i)
+		default:
+			fmt.Fprintf(&sb, "%s=%v ", base(tags[i]), vals[i:j])
+		}
+		i = j
+	}
+	return strings.TrimSpace(sb.String())
 }
